@@ -1,15 +1,550 @@
 package main
 
+import (
+	"fmt"
+	"sort"
+	"strings"
+
+	"golang.org/x/tools/go/ssa"
+)
+
 func init() { register("C15", propC15) }
 
 func propC15(c *Ctx) propInfo {
 	c.errflow(excC15E2, "wallet")
 	c.floor("E2.R-drop", 100)
+	c.walletConfigFlow()
+	c.walletAddressUnity()
+	c.nextMessageParams()
+	c.sendPipeline()
+	c.seedRules()
+	c.walletDataLayouts()
 	return propInfo{
-		explanation: "Static structural clauses of C15 (DESIGN.md §4 C15): error discipline of package wallet (no dropped error, no result used where its error is non-nil, no nil error returned on a failure path, no stale nil error returned with a zero value), data-cell layouts equal the wallet contracts' layouts, every configuration field flows into the state-init, all address APIs reach one implementation, sibling agreement of NextMessageParams, send path addresses the wallet itself, mnemonic version check dominates key derivation. Decides these necessary conditions, not address inequality or polling outcomes.",
+		explanation: "Static structural clauses of C15: (E15 config-flow) every parameter of GenerateStateInit / GenerateWalletAddress / New reaches newWallet through the matching With* option, every option closure writes its own Options field, every constructor copies the options it is documented to use into the wallet struct, and every data-cell literal is built from exactly those fields (so key, version, workchain, sub-wallet id and network id are live in the hashed state-init); (address unity) every address API reaches generateAddress(w.workchain, own generateStateInit()) and the common generateAddress puts the state-init hash and the workchain into the id; Wallet.address is written only by New. (NextMessageParams) finite-domain evaluation over the four account statuses: for nonexist and uninit every reachable return carries a state-init from generateStateInit, for active none does and (seqno wallets) the seqno comes from the decoded on-chain data of the same data type the wallet marshals. (send pipeline) SendV2 forwards params.Seqno/params.Init and asks for the state of its own address; RawSendV2 addresses the message to w.address, attaches the init it was given, sends the serialised external message and returns nil after a confirmation wait only on the newSeqno > seqno edge. (seed) SeedToPrivateKey succeeds only through the version-byte test. (layouts) data-cell layouts equal the wallet contracts' storage layouts in spec/tlb_layouts.spec. Error discipline of package wallet (E2). NOT decided: address inequality for different inputs (hash collision freedom), the timing of the polling loop.",
+		assumptions: []string{"SHA-256 / ed25519 / pbkdf2 behave as documented", "the embedded contract code strings are the published ones (not checked)"},
 	}
 }
 
 var excC15E2 = map[string]string{
 	"(*wallet.PayloadV1toV4).UnmarshalTLB R-swallow return nil under boc.Cell.NextRef()#1 != nil": "loop-termination idiom: NextRef fails only with ErrNotEnoughRefs, which marks the end of the message list",
+}
+
+// walletConfigFlow: parameters -> options -> constructor fields -> data literal.
+func (c *Ctx) walletConfigFlow() {
+	const R = "E15.config-flow"
+	// 1. option closures
+	for fn, fld := range map[string]string{"WithNetworkGlobalID": "NetworkGlobalID", "WithWorkchain": "Workchain", "WithSubWalletID": "SubWalletID", "WithMessageLifetime": "MsgLifetime"} {
+		f := c.mustFn(R, "wallet", fn)
+		if f == nil {
+			continue
+		}
+		var got []string
+		okSrc := false
+		for _, an := range f.AnonFuncs {
+			allInstrs(an, func(_ *ssa.BasicBlock, in ssa.Instruction) {
+				if st, ok := in.(*ssa.Store); ok {
+					if tn, n, ok := fieldOf(st.Addr); ok && tn == "wallet.Options" {
+						got = append(got, n)
+						for _, l := range leaves(st.Val) {
+							if l == f.Params[0].Name() {
+								okSrc = true
+							}
+						}
+						if fv, ok := st.Val.(*ssa.FreeVar); ok && fv.Name() == f.Params[0].Name() {
+							okSrc = true
+						}
+					}
+				}
+			})
+		}
+		c.check(len(got) == 1 && got[0] == fld && okSrc, R, fn+" sets Options."+fld+" from its argument", f.Pos(), fmt.Sprint(got), fmt.Sprintf("%s writes Options fields %v (from its argument: %v); it must set exactly %s", fn, got, okSrc, fld))
+	}
+	if f := c.mustFn(R, "wallet", "applyOptions"); f != nil {
+		okCall := false
+		allInstrs(f, func(_ *ssa.BasicBlock, in ssa.Instruction) {
+			if cl, ok := in.(*ssa.Call); ok && !cl.Call.IsInvoke() {
+				if _, isFn := cl.Call.Value.(*ssa.Function); !isFn {
+					if _, isB := cl.Call.Value.(*ssa.Builtin); !isB && len(cl.Call.Args) == 1 {
+						ls := leaves(cl.Call.Value)
+						if len(ls) == 1 && ls[0] == "opts" {
+							if _, isAl := cl.Call.Args[0].(*ssa.Alloc); isAl {
+								okCall = true
+							}
+						}
+					}
+				}
+			}
+		})
+		c.check(okCall, R, "applyOptions applies every option to the returned Options", f.Pos(), "for o in opts: o(&options)", "applyOptions no longer calls each option on the Options value it returns")
+	}
+	// 2. public entry points pass every parameter on
+	for _, name := range []string{"GenerateWalletAddress", "GenerateStateInit"} {
+		f := c.mustFn(R, "wallet", name)
+		if f == nil {
+			continue
+		}
+		for _, cl := range callsTo(f, modPath+"/wallet.newWallet") {
+			got := []string{strings.Join(leaves(cl.Call.Args[0]), ","), strings.Join(leaves(cl.Call.Args[1]), ","), strings.Join(leaves(cl.Call.Args[2]), ",")}
+			want := []string{"key", "ver", "networkGlobalID,subWalletId,workchain"}
+			c.check(fmt.Sprint(got) == fmt.Sprint(want), R, name+" passes key, version and all three options to newWallet", cl.Pos(), fmt.Sprint(got),
+				fmt.Sprintf("%s calls newWallet(key<-{%s}, ver<-{%s}, options<-{%s}); every one of key, ver, networkGlobalID, workchain, subWalletId must reach it", name, got[0], got[1], got[2]))
+		}
+		// which option constructor receives which parameter
+		pairs := map[string]string{}
+		for _, q := range []string{"WithWorkchain", "WithNetworkGlobalID", "WithSubWalletID"} {
+			for _, cl := range callsTo(f, modPath+"/wallet."+q) {
+				pairs[q] = strings.Join(leaves(cl.Call.Args[0]), ",")
+			}
+		}
+		wantP := map[string]string{"WithWorkchain": "workchain", "WithNetworkGlobalID": "networkGlobalID", "WithSubWalletID": "subWalletId"}
+		c.check(fmt.Sprint(pairs) == fmt.Sprint(wantP), R, name+" wraps each parameter in its own option", f.Pos(), fmt.Sprint(pairs), fmt.Sprintf("%s builds options %v, expected %v", name, pairs, wantP))
+	}
+	if f := c.mustFn(R, "wallet", "New"); f != nil {
+		for _, cl := range callsTo(f, modPath+"/wallet.newWallet") {
+			got := []string{strings.Join(leaves(cl.Call.Args[0]), ","), strings.Join(leaves(cl.Call.Args[1]), ","), strings.Join(leaves(cl.Call.Args[2]), ",")}
+			c.check(fmt.Sprint(got) == "[key ver opts]", R, "New passes the public key of its key, the version and the options to newWallet", cl.Pos(), fmt.Sprint(got), fmt.Sprintf("New calls newWallet with arguments computed from %v, expected [key ver opts]", got))
+		}
+		okA := false
+		for _, m := range literalFields(f, "Wallet") {
+			for _, v := range m["address"] {
+				okA = derivesFrom(v, func(v ssa.Value) bool {
+					c2 := callOf(v)
+					return c2 != nil && c2.Call.IsInvoke() && c2.Call.Method.Name() == "generateAddress"
+				}, false)
+			}
+		}
+		c.check(okA, R, "New stores the address generated by the implementation it built", f.Pos(), "address: w.generateAddress()", "New no longer stores w.generateAddress() as the wallet address")
+		c.literalIs(R, f, "Wallet", 1, map[string]string{"address": "key,opts,ver", "key": "key", "ver": "ver", "intWallet": "key,opts,ver", "blockchain": "blockchain", "msgDefaultLifetime": "opts"})
+	}
+	// 3. newWallet: version -> implementation
+	if f := c.mustFn(R, "wallet", "newWallet"); f != nil {
+		got := switchTable(f, f.Params[1])
+		want := map[string]string{
+			"0": "newWalletV1V2", "1": "newWalletV1V2", "2": "newWalletV1V2", "3": "newWalletV1V2", "4": "newWalletV1V2",
+			"5": "newWalletV3", "6": "newWalletV3", "8": "newWalletV4", "9": "newWalletV4", "10": "NewWalletV5Beta", "11": "NewWalletV5R1", "16": "newWalletHighloadV2",
+		}
+		c.check(fmt.Sprint(got) == fmt.Sprint(want), R, "newWallet: version -> implementation table", f.Pos(), fmt.Sprint(got), fmt.Sprintf("newWallet maps versions to implementations as %v, confirmed table is %v", got, want))
+		for _, q := range []string{"newWalletV1V2", "newWalletV3", "newWalletV4", "NewWalletV5Beta", "newWalletHighloadV2"} {
+			for _, cl := range callsTo(f, modPath+"/wallet."+q) {
+				a := []string{strings.Join(leaves(cl.Call.Args[0]), ","), strings.Join(leaves(cl.Call.Args[1]), ","), strings.Join(leaves(cl.Call.Args[2]), ",")}
+				c.check(fmt.Sprint(a) == "[version key options]", R, "newWallet forwards (version, key, options) to "+q, cl.Pos(), fmt.Sprint(a), fmt.Sprintf("newWallet calls %s with arguments from %v", q, a))
+			}
+		}
+		for _, cl := range callsTo(f, modPath+"/wallet.NewWalletV5R1") {
+			a := []string{strings.Join(leaves(cl.Call.Args[0]), ","), strings.Join(leaves(cl.Call.Args[1]), ",")}
+			c.check(fmt.Sprint(a) == "[key options]", R, "newWallet forwards (key, options) to NewWalletV5R1", cl.Pos(), fmt.Sprint(a), fmt.Sprintf("newWallet calls NewWalletV5R1 with arguments from %v", a))
+		}
+	}
+	// 4. constructors
+	ctor := []struct {
+		fn, typ string
+		want    map[string]string
+	}{
+		{"newWalletV1V2", "walletV1V2", map[string]string{"version": "ver", "publicKey": "key", "workchain": "options.Workchain"}},
+		{"newWalletV3", "walletV3", map[string]string{"version": "ver", "publicKey": "key", "workchain": "options.Workchain", "subWalletID": "options.SubWalletID,options.Workchain"}},
+		{"newWalletV4", "walletV4", map[string]string{"version": "version", "publicKey": "publicKey", "workchain": "opts.Workchain", "subWalletID": "opts.SubWalletID,opts.Workchain"}},
+		{"newWalletHighloadV2", "walletHighloadV2", map[string]string{"version": "ver", "publicKey": "key", "workchain": "options.Workchain", "subWalletID": "options.SubWalletID,options.Workchain"}},
+		{"NewWalletV5Beta", "walletV5Beta", map[string]string{"version": "version", "publicKey": "publicKey", "workchain": "opts.Workchain", "subWalletID": "opts.SubWalletID", "networkGlobalID": "opts.NetworkGlobalID"}},
+		{"NewWalletV5R1", "walletV5R1", map[string]string{"publicKey": "publicKey", "workchain": "opts.Workchain", "walletID": "opts.NetworkGlobalID,opts.Workchain", "isSignatureAllowed": ""}},
+	}
+	for _, k := range ctor {
+		c.literalIs(R, c.mustFn(R, "wallet", k.fn), k.typ, 1, k.want)
+	}
+	// 5. data literals
+	data := []struct {
+		recv, typ string
+		want      map[string]string
+	}{
+		{"walletV1V2", "DataV1V2", map[string]string{"PublicKey": "w.publicKey"}},
+		{"walletV3", "DataV3", map[string]string{"SubWalletId": "w.subWalletID", "PublicKey": "w.publicKey"}},
+		{"walletV4", "DataV4", map[string]string{"SubWalletId": "w.subWalletID", "PublicKey": "w.publicKey"}},
+		{"walletHighloadV2", "DataHighloadV2", map[string]string{"SubWalletId": "w.subWalletID", "PublicKey": "w.publicKey"}},
+		{"walletV5Beta", "DataV5Beta", map[string]string{"WalletID.NetworkGlobalID": "w.networkGlobalID", "WalletID.Workchain": "w.workchain", "WalletID.SubWalletID": "w.subWalletID", "PublicKey": "w.publicKey"}},
+		{"walletV5R1", "DataV5R1", map[string]string{"IsSignatureAllowed": "w.isSignatureAllowed", "WalletID": "w.walletID", "PublicKey": "w.publicKey"}},
+	}
+	for _, k := range data {
+		f := c.mustFn(R, "wallet", k.recv+".generateStateInit")
+		c.literalIs(R, f, k.typ, 1, k.want)
+		if f == nil {
+			continue
+		}
+		// the literal is what is marshalled with the wallet's own version
+		for _, cl := range callsTo(f, modPath+"/wallet.generateStateInit") {
+			ver := strings.Join(leaves(cl.Call.Args[0]), ",")
+			wantVer := "w.version"
+			if k.recv == "walletV5R1" {
+				wantVer = ""
+			}
+			okData := false
+			if mi, ok := cl.Call.Args[1].(*ssa.MakeInterface); ok {
+				okData = strings.HasSuffix(mi.X.Type().String(), "."+k.typ)
+			}
+			if k.recv == "walletV5R1" {
+				kv, _ := constInt(stripConv(cl.Call.Args[0]))
+				c.check(kv == 11, R, k.recv+" state-init uses the V5R1 code", cl.Pos(), "V5R1", "walletV5R1.generateStateInit no longer selects the V5R1 code")
+			}
+			c.check(ver == wantVer && okData, R, k.recv+": state-init = code(own version) + "+k.typ, cl.Pos(), "generateStateInit("+wantVer+", data)", fmt.Sprintf("%s.generateStateInit marshals %s with version from {%s}", k.recv, cl.Call.Args[1].Type(), ver))
+		}
+	}
+	// 6. common generateStateInit: code from GetCodeByVer(ver), data from Marshal(data); both set and marked existing
+	if f := c.mustFn(R, "wallet", "generateStateInit"); f != nil {
+		lits := literalFields(f, "StateInit")
+		okv := false
+		if len(lits) == 1 {
+			m := lits[0]
+			code := vals2leaves(m["Code.Value.Value"])
+			data := vals2leaves(m["Data.Value.Value"])
+			ce := len(m["Code.Exists"]) == 1 && isTrue(m["Code.Exists"][0])
+			de := len(m["Data.Exists"]) == 1 && isTrue(m["Data.Exists"][0])
+			okv = code == "ver" && strings.Contains(data, "call:boc.NewCell") && ce && de && len(m["Library.Exists"]) == 0
+			if !okv {
+				c.bad(R, "state-init = {code(ver), data}", f.Pos(), fmt.Sprintf("generateStateInit builds StateInit with code<-{%s} data<-{%s} code.Exists=%v data.Exists=%v", code, data, ce, de))
+			}
+		}
+		if okv {
+			c.ok(R, "state-init = {code(ver), data}", f.Pos(), "Code = GetCodeByVer(ver), Data = marshalled data, both present")
+		} else if len(lits) != 1 {
+			c.bad(R, "state-init = {code(ver), data}", f.Pos(), fmt.Sprintf("generateStateInit builds %d StateInit literals", len(lits)))
+		}
+		okM := false
+		for _, cl := range callsTo(f, modPath+"/tlb.Marshal") {
+			okM = strings.Join(leaves(cl.Call.Args[1]), ",") == "data"
+		}
+		c.check(okM, R, "the data cell is the marshalled data argument", f.Pos(), "tlb.Marshal(dataCell, data)", "generateStateInit no longer marshals its data argument into the data cell")
+	}
+	c.floor(R, 35)
+}
+
+func vals2leaves(vs []ssa.Value) string {
+	var ls []string
+	for _, v := range vs {
+		ls = append(ls, leaves(v)...)
+	}
+	sort.Strings(ls)
+	return strings.Join(ls, ",")
+}
+
+func isTrue(v ssa.Value) bool {
+	b, ok := constBool(v)
+	return ok && b
+}
+
+// switchTable: for a switch on value v with constant cases in f, map "case constant" -> name of the
+// module function called in the block that case leads to.
+func switchTable(f *ssa.Function, v ssa.Value) map[string]string {
+	out := map[string]string{}
+	for _, b := range f.Blocks {
+		iff := lastIf(b)
+		if iff == nil {
+			continue
+		}
+		bo, ok := iff.Cond.(*ssa.BinOp)
+		if !ok || bo.Op.String() != "==" {
+			continue
+		}
+		var k int64
+		if bo.X == v {
+			kk, ok := constInt(bo.Y)
+			if !ok {
+				continue
+			}
+			k = kk
+		} else if bo.Y == v {
+			kk, ok := constInt(bo.X)
+			if !ok {
+				continue
+			}
+			k = kk
+		} else {
+			continue
+		}
+		tgt := b.Succs[0]
+		name := "?"
+		for _, in := range tgt.Instrs {
+			if cl, ok := in.(*ssa.Call); ok {
+				if fn := calleeFunc(&cl.Call); fn != nil && strings.HasPrefix(qname(fn), modPath) {
+					name = fn.Name()
+					break
+				}
+			}
+		}
+		out[fmt.Sprint(k)] = name
+	}
+	return out
+}
+
+// walletAddressUnity: one address function.
+func (c *Ctx) walletAddressUnity() {
+	const R = "E15.address-unity"
+	for _, recv := range []string{"walletV1V2", "walletV3", "walletV4", "walletHighloadV2", "walletV5Beta", "walletV5R1"} {
+		f := c.mustFn(R, "wallet", recv+".generateAddress")
+		if f == nil {
+			continue
+		}
+		okv := false
+		for _, cl := range callsTo(f, modPath+"/wallet.generateAddress") {
+			wc := strings.Join(leaves(cl.Call.Args[0]), ",")
+			si := derivesFrom(cl.Call.Args[1], callResult(modPath+"/wallet."+recv+".generateStateInit"), false)
+			okv = wc == "w.workchain" && si
+		}
+		c.check(okv, R, recv+".generateAddress = generateAddress(w.workchain, own state-init)", f.Pos(), "hash of own generateStateInit() in w.workchain", recv+".generateAddress no longer hashes its own state-init in its own workchain")
+		c.delegatesTo(R, f, 1, []string{modPath + "/wallet.generateAddress"})
+	}
+	if f := c.mustFn(R, "wallet", "generateAddress"); f != nil {
+		lits := literalFields(f, "AccountID")
+		okv := false
+		for _, m := range lits {
+			if len(m) == 0 {
+				continue // zero value on error paths
+			}
+			wc := vals2leaves(m["Workchain"])
+			okA := false
+			for _, v := range m["Address"] {
+				okA = derivesFrom(v, callResult(modPath+"/boc.Cell.Hash"), false)
+			}
+			okv = wc == "workchain" && okA
+		}
+		okM := false
+		for _, cl := range callsTo(f, modPath+"/tlb.Marshal") {
+			okM = strings.Join(leaves(cl.Call.Args[1]), ",") == "stateInit"
+		}
+		c.check(okv && okM, R, "address = (workchain, representation hash of the marshalled state-init)", f.Pos(), "AccountID{Workchain: workchain, Address: Hash(Marshal(stateInit))}", "generateAddress no longer returns the workchain argument with the representation hash of the marshalled state-init")
+	}
+	// Wallet.address: written only in New, from generateAddress; GetAddress returns it
+	la := &lockAnalysis{c: c, funcs: c.moduleFuncs("wallet")}
+	la.whoMayWrite(R, "wallet.Wallet.address", map[string]string{})
+	if f := c.mustFn(R, "wallet", "Wallet.GetAddress"); f != nil {
+		okv := false
+		for _, r := range returnsOf(f) {
+			okv = strings.Join(leaves(retVal(r, 0)), ",") == "w.address"
+		}
+		c.check(okv, R, "GetAddress returns the stored address", f.Pos(), "w.address", "Wallet.GetAddress no longer returns w.address")
+	}
+	if f := c.mustFn(R, "wallet", "GenerateWalletAddress"); f != nil {
+		c.delegatesTo(R, f, 1, []string{modPath + "/wallet.wallet.generateAddress"})
+	}
+	if f := c.mustFn(R, "wallet", "Wallet.StateInit"); f != nil {
+		c.delegatesTo(R, f, 1, []string{modPath + "/wallet.wallet.generateStateInit"})
+	}
+	c.floor(R, 12)
+}
+
+// nextMessageParams: evaluate each implementation over the four account statuses.
+func (c *Ctx) nextMessageParams() {
+	const R = "E15.next-params"
+	dataOf := map[string]string{"walletV3": "DataV3", "walletV4": "DataV4", "walletV5Beta": "DataV5Beta", "walletV5R1": "DataV5R1", "walletHighloadV2": ""}
+	statusQ := modPath + "/tlb.Account.Status"
+	for recv, dt := range dataOf {
+		f := c.mustFn(R, "wallet", recv+".NextMessageParams")
+		if f == nil {
+			continue
+		}
+		for _, s := range []string{"nonexist", "uninit", "active"} {
+			rets := enumEval(f, statusQ, s)
+			okv := len(rets) > 0
+			var why []string
+			for _, r := range rets {
+				if isFailureValue(f, retVal(r, 1), r.Block()) {
+					continue
+				}
+				initSet, seqSrc := false, ""
+				res := retVal(r, 0)
+				// result is a load of a literal alloc or a struct value
+				for _, lit := range literalFields(f, "NextMsgParams") {
+					_ = lit
+				}
+				initSet = derivesFrom(res, callResult(modPath+"/wallet."+recv+".generateStateInit"), false)
+				if derivesFrom(res, callResult(modPath+"/tlb.Unmarshal"), false) || derivesFrom(res, func(v ssa.Value) bool {
+					_, n, ok := fieldOfLoad(v)
+					return ok && n == "Seqno"
+				}, false) {
+					seqSrc = "data"
+				}
+				switch s {
+				case "nonexist", "uninit":
+					if !initSet {
+						okv = false
+						why = append(why, fmt.Sprintf("a success return at %s carries no state-init", c.posOf(r.Pos())))
+					}
+				case "active":
+					if initSet {
+						okv = false
+						why = append(why, fmt.Sprintf("a success return at %s attaches the state-init to an active account", c.posOf(r.Pos())))
+					}
+					if dt != "" && seqSrc != "data" {
+						okv = false
+						why = append(why, fmt.Sprintf("a success return at %s does not take the seqno from the on-chain data", c.posOf(r.Pos())))
+					}
+				}
+			}
+			c.check(okv, R, fmt.Sprintf("%s.NextMessageParams for status %s", recv, s), f.Pos(), fmt.Sprintf("%d reachable returns", len(rets)), fmt.Sprintf("%s.NextMessageParams with account status %q: %s", recv, s, strings.Join(why, "; ")))
+		}
+		if dt != "" {
+			// the decoded type is the type this wallet marshals, and it is decoded from the account's data cell
+			okT, okSrc := false, false
+			for _, cl := range callsTo(f, modPath+"/tlb.Unmarshal") {
+				if mi, ok := cl.Call.Args[1].(*ssa.MakeInterface); ok {
+					okT = strings.HasSuffix(mi.X.Type().String(), "."+dt)
+				}
+				ls := strings.Join(leaves(cl.Call.Args[0]), ",")
+				okSrc = strings.HasSuffix(ls, "AccountActive.StateInit.Data.Value.Value") && strings.HasPrefix(ls, "state.Account")
+			}
+			c.check(okT && okSrc, R, recv+" reads the seqno from its own data layout in the active account's data cell", f.Pos(), dt+" from state.Account...AccountActive.StateInit.Data", fmt.Sprintf("%s.NextMessageParams decodes (own data type: %v, from the active account's data cell: %v)", recv, okT, okSrc))
+			var seq []string
+			for _, m := range literalFields(f, "NextMsgParams") {
+				if vs, ok := m["Seqno"]; ok {
+					for _, v := range vs {
+						_, n, _ := fieldOfLoad(stripConv(v))
+						seq = append(seq, n)
+					}
+				}
+			}
+			c.check(len(seq) == 1 && seq[0] == "Seqno", R, recv+" returns data.Seqno", f.Pos(), "Seqno: data.Seqno", fmt.Sprintf("%s.NextMessageParams fills Seqno from %v", recv, seq))
+		}
+	}
+	c.floor(R, 23)
+}
+
+// sendPipeline: SendV2 / RawSendV2 argument flow and confirmation outcome.
+func (c *Ctx) sendPipeline() {
+	const R = "E15.send-pipeline"
+	if f := c.mustFn(R, "wallet", "Wallet.SendV2"); f != nil {
+		for _, cl := range callsTo(f, modPath+"/wallet.Wallet.RawSendV2") {
+			seq := strings.Join(leaves(cl.Call.Args[2]), ",")
+			ini := strings.Join(leaves(cl.Call.Args[5]), ",")
+			wait := strings.Join(leaves(cl.Call.Args[6]), ",")
+			okSeq := derivesFrom(cl.Call.Args[2], callResult(modPath+"/wallet.wallet.NextMessageParams"), false)
+			okIni := derivesFrom(cl.Call.Args[5], callResult(modPath+"/wallet.wallet.NextMessageParams"), false)
+			_, n1, _ := fieldOfLoad(cl.Call.Args[2])
+			_, n2, _ := fieldOfLoad(cl.Call.Args[5])
+			c.check(okSeq && okIni && n1 == "Seqno" && n2 == "Init" && wait == "waitingConfirmation", R, "SendV2 forwards params.Seqno, params.Init and the confirmation wait", cl.Pos(), "RawSendV2(ctx, params.Seqno, _, msgs, params.Init, waitingConfirmation)", fmt.Sprintf("SendV2 calls RawSendV2 with seqno<-{%s}(%s) init<-{%s}(%s) wait<-{%s}", seq, n1, ini, n2, wait))
+			okMsgs := strings.Contains(strings.Join(leaves(cl.Call.Args[4]), ","), "messages")
+			c.check(okMsgs, R, "SendV2 forwards every requested message", cl.Pos(), "msgArray built from messages", "SendV2 no longer builds the raw messages from its messages argument")
+		}
+		okSt := false
+		allInstrs(f, func(_ *ssa.BasicBlock, in ssa.Instruction) {
+			if cl, ok := in.(*ssa.Call); ok && cl.Call.IsInvoke() && cl.Call.Method.Name() == "GetAccountState" {
+				okSt = derivesFrom(cl.Call.Args[1], callResult(modPath+"/wallet.Wallet.GetAddress"), false) || strings.Join(leaves(cl.Call.Args[1]), ",") == "w.address"
+			}
+			if cl, ok := in.(*ssa.Call); ok && cl.Call.IsInvoke() && cl.Call.Method.Name() == "NextMessageParams" {
+				c.check(derivesFrom(cl.Call.Args[0], func(v ssa.Value) bool {
+					c2 := callOf(v)
+					return c2 != nil && c2.Call.IsInvoke() && c2.Call.Method.Name() == "GetAccountState"
+				}, false), R, "NextMessageParams sees the fetched account state", cl.Pos(), "state from GetAccountState", "SendV2 passes something other than the fetched account state to NextMessageParams")
+			}
+		})
+		c.check(okSt, R, "SendV2 fetches the state of the wallet's own address", f.Pos(), "GetAccountState(ctx, w.GetAddress())", "SendV2 fetches the account state of an address other than the wallet's")
+	}
+	if f := c.mustFn(R, "wallet", "Wallet.RawSendV2"); f != nil {
+		for _, cl := range callsTo(f, modPath+"/ton.CreateExternalMessage") {
+			a := []string{strings.Join(leaves(cl.Call.Args[0]), ","), strings.Join(leaves(cl.Call.Args[2]), ",")}
+			okB := false
+			if ex, ok := cl.Call.Args[1].(*ssa.Extract); ok {
+				if c2 := callOf(ex.Tuple); c2 != nil && c2.Call.IsInvoke() && c2.Call.Method.Name() == "createSignedMsgBodyCell" {
+					okB = true
+					b := []string{strings.Join(leaves(c2.Call.Args[0]), ","), strings.Join(leaves(c2.Call.Args[1]), ","), strings.Join(leaves(c2.Call.Args[2]), ",")}
+					c.check(fmt.Sprint(b) == "[w.key internalMessages seqno,validUntil]", R, "the body is signed with the wallet key over the given messages, seqno and expiry", c2.Pos(), fmt.Sprint(b), fmt.Sprintf("RawSendV2 calls createSignedMsgBodyCell with arguments from %v; expected [w.key internalMessages seqno,validUntil]", b))
+				}
+			}
+			c.check(fmt.Sprint(a) == "[w.address init]" && okB, R, "external message: dest = own address, init = given init, body = signed body", cl.Pos(), fmt.Sprint(a), fmt.Sprintf("RawSendV2 calls CreateExternalMessage with address<-{%s} init<-{%s} body-is-signed-body=%v", a[0], a[1], okB))
+		}
+		// what is sent is the serialisation of the marshalled external message
+		okSend := false
+		allInstrs(f, func(_ *ssa.BasicBlock, in ssa.Instruction) {
+			if cl, ok := in.(*ssa.Call); ok && cl.Call.IsInvoke() && cl.Call.Method.Name() == "SendMessage" {
+				okSend = derivesFrom(cl.Call.Args[1], callResult(modPath+"/boc.Cell.ToBocCustom"), false)
+			}
+		})
+		okMar := false
+		for _, cl := range callsTo(f, modPath+"/tlb.Marshal") {
+			okMar = derivesFrom(cl.Call.Args[1], callResult(modPath+"/ton.CreateExternalMessage"), false)
+		}
+		c.check(okSend && okMar, R, "the payload sent is the BoC of the marshalled external message", f.Pos(), "SendMessage(ToBocCustom(Marshal(extMsg)))", "RawSendV2 no longer sends the serialised external message it built")
+		// confirmation: a nil error after the send is returned only (a) when no wait was asked, or (b) on newSeqno > seqno
+		noWait, _ := passingEdges(f, requiredCheck{src: func(v ssa.Value) bool {
+			b, ok := v.(*ssa.BinOp)
+			return ok && b.Op.String() == "==" && strings.Join(leaves(b.X), ",") == "waitingConfirmation"
+		}, kind: "bool"})
+		adv, _ := passingEdges(f, requiredCheck{src: func(v ssa.Value) bool {
+			b, ok := v.(*ssa.BinOp)
+			if !ok || b.Op.String() != ">" {
+				return false
+			}
+			c2 := callOf(b.X)
+			if ex, ok := b.X.(*ssa.Extract); ok {
+				c2 = callOf(ex.Tuple)
+			}
+			return c2 != nil && c2.Call.IsInvoke() && c2.Call.Method.Name() == "GetSeqno" && strings.Join(leaves(b.Y), ",") == "seqno"
+		}, kind: "bool"})
+		okC := len(noWait) == 1 && len(adv) == 1
+		n := 0
+		for _, sp := range successPoints(f, 1) {
+			n++
+			d := false
+			for _, e := range append(append([]edge{}, noWait...), adv...) {
+				if edgeDominates(f, e, sp.Block) {
+					d = true
+				}
+			}
+			if !d {
+				okC = false
+			}
+		}
+		c.check(okC && n >= 2, R, "success is returned only without a wait or once the seqno has advanced", f.Pos(), fmt.Sprintf("%d success exits, each behind waitingConfirmation == 0 or newSeqno > seqno", n), "RawSendV2 can return a nil error after a confirmation wait without having observed newSeqno > seqno (or the confirmation test is gone)")
+		// GetSeqno is asked for the wallet's own address
+		allInstrs(f, func(_ *ssa.BasicBlock, in ssa.Instruction) {
+			if cl, ok := in.(*ssa.Call); ok && cl.Call.IsInvoke() && cl.Call.Method.Name() == "GetSeqno" {
+				c.check(strings.Join(leaves(cl.Call.Args[1]), ",") == "w.address", R, "confirmation polls the wallet's own seqno", cl.Pos(), "GetSeqno(ctx, w.address)", "RawSendV2 polls the seqno of an address other than the wallet's")
+			}
+		})
+	}
+	c.floor(R, 9)
+}
+
+func (c *Ctx) seedRules() {
+	const R = "E8.mustcheck"
+	if f := c.mustFn(R, "wallet", "SeedToPrivateKey"); f != nil {
+		c.mustDominate(R, f, 1, []requiredCheck{
+			{name: "seed version byte == 0", src: func(v ssa.Value) bool {
+				return isIndexLoad(0)(v) && derivesFrom(v, callResult("golang.org/x/crypto/pbkdf2.Key"), false)
+			}, kind: "eq"},
+		}, nil, "")
+		c.mustDominate(R, f, 1, []requiredCheck{
+			{name: "at least 12 words", src: func(v ssa.Value) bool {
+				b, ok := v.(*ssa.BinOp)
+				if !ok || b.Op.String() != "<" {
+					return false
+				}
+				k, _ := constInt(b.Y)
+				cl := callOf(b.X)
+				return k == 12 && cl != nil && derivesFrom(cl.Call.Args[0], callResult("strings.Split"), false)
+			}, kind: "notbool"},
+		}, nil, "")
+	}
+	// sibling agreement: checkSumSeed and SeedToPrivateKey derive the version byte identically
+	var sig []string
+	for _, name := range []string{"SeedToPrivateKey", "checkSumSeed"} {
+		f := c.mustFn(R, "wallet", name)
+		if f == nil {
+			continue
+		}
+		for _, cl := range callsTo(f, "golang.org/x/crypto/pbkdf2.Key") {
+			salt, _ := constString(stripConv(cl.Call.Args[1]))
+			it, _ := constInt(cl.Call.Args[2])
+			kl, _ := constInt(cl.Call.Args[3])
+			if salt == "TON seed version" {
+				sig = append(sig, fmt.Sprintf("%s/%d/%d", salt, it, kl))
+			}
+		}
+	}
+	c.check(len(sig) == 2 && sig[0] == sig[1], R, "RandomSeed's acceptance test and SeedToPrivateKey's version test use the same derivation", 0, fmt.Sprint(sig), fmt.Sprintf("the seed version derivations differ: %v", sig))
+	c.floor(R, 3)
+}
+
+// walletDataLayouts: E3 layouts of the data structs against the spec.
+func (c *Ctx) walletDataLayouts() {
+	c.layoutVsSpec(func(k string) bool {
+		return strings.HasPrefix(k, "wallet.Data") || k == "wallet.WalletV5ID"
+	})
+	c.floor("E3b.layout=spec", 7)
 }
